@@ -751,10 +751,13 @@ impl Expression {
                     Some(d) if ('0'..='7').contains(&d) => {
                         // parse as OCT
                         let mut num = Some(0i64);
+                        // (beyond i64 the value is rounded once, from all of its bits)
+                        let mut wide_num = Some(0u128);
                         let mut float_num = 0f64;
                         loop {
                             let d = ps.next().unwrap() as i64 - '0' as i64;
                             num = num.and_then(|x| x.checked_mul(8)?.checked_add(d));
+                            wide_num = wide_num.and_then(|x| x.checked_mul(8)?.checked_add(d as u128));
                             float_num = float_num * 8. + d as f64;
                             let Some(peek) = ps.peek::<0>() else { break };
                             if !is_ident_char(peek) {
@@ -773,7 +776,7 @@ impl Expression {
                                 location: pos..ps.position(),
                             },
                             None => Expression::LitFloat {
-                                value: float_num,
+                                value: wide_num.map(|x| x as f64).unwrap_or(float_num),
                                 location: pos..ps.position(),
                             },
                         }));
@@ -782,6 +785,8 @@ impl Expression {
                         // parse as HEX
                         ps.next(); // 'x'
                         let mut num = Some(0i64);
+                        // (beyond i64 the value is rounded once, from all of its bits)
+                        let mut wide_num = Some(0u128);
                         let mut float_num = 0f64;
                         let peek = ps.peek::<0>()?;
                         if !('0'..='9').contains(&peek)
@@ -815,6 +820,7 @@ impl Expression {
                                 _ => unreachable!(),
                             };
                             num = num.and_then(|x| x.checked_mul(16)?.checked_add(d));
+                            wide_num = wide_num.and_then(|x| x.checked_mul(16)?.checked_add(d as u128));
                             float_num = float_num * 16. + d as f64;
                             let Some(peek) = ps.peek::<0>() else { break };
                             if !is_ident_char(peek) {
@@ -836,7 +842,7 @@ impl Expression {
                                 location: pos..ps.position(),
                             },
                             None => Expression::LitFloat {
-                                value: float_num,
+                                value: wide_num.map(|x| x as f64).unwrap_or(float_num),
                                 location: pos..ps.position(),
                             },
                         }));
